@@ -17,6 +17,7 @@
 //	stress   every node runs its own seeded random script concurrently
 //	reorder  the write-timeout scenario of DESIGN section 8 #15 (stalled receiver, large payloads)
 //	dqueue   the shipped systems/dqueue archetypes over real TCP mailboxes
+//	twodest  one section writing to two stalled receivers: two pre-commit time-outs, immediate retry
 package main
 
 import (
@@ -69,6 +70,8 @@ type Case struct {
 	Late     bool  `json:"late,omitempty"`
 	Consumers int  `json:"consumers,omitempty"` // dqueue
 	Items     int  `json:"items,omitempty"`
+	SlowPre   int  `json:"slowpre,omitempty"` // twodest: the first PreCommit of the element for this destination starts late
+	SlowMs    int  `json:"slowms,omitempty"`
 }
 
 type Msg struct {
@@ -234,13 +237,35 @@ func (d *decoMap) Close() error {
 
 type decoLeaf struct {
 	distsys.ArchetypeResourceLeafMixin
-	inner distsys.ArchetypeResource
-	n     *node
-	idx   int
+	inner    distsys.ArchetypeResource
+	n        *node
+	idx      int
+	slowDone bool
 }
 
-func (l *decoLeaf) Abort(iface distsys.ArchetypeInterface) chan struct{}  { return l.inner.Abort(iface) }
-func (l *decoLeaf) PreCommit(iface distsys.ArchetypeInterface) chan error { return l.inner.PreCommit(iface) }
+func (l *decoLeaf) Abort(iface distsys.ArchetypeInterface) chan struct{} { return l.inner.Abort(iface) }
+
+// PreCommit forwards. In the twodest scenario the element of one destination is slow once: its
+// PreCommit starts SlowMs late (as a goroutine that is scheduled late would), which the API allows:
+// PreCommit is asynchronous and the caller has to wait for the channel.
+func (l *decoLeaf) PreCommit(iface distsys.ArchetypeInterface) chan error {
+	c := l.n.cr.c
+	if c.SlowPre == 0 || c.SlowPre != l.idx || l.slowDone {
+		return l.inner.PreCommit(iface)
+	}
+	l.slowDone = true
+	out := make(chan error, 1)
+	go func() {
+		time.Sleep(time.Duration(c.SlowMs) * time.Millisecond)
+		ch := l.inner.PreCommit(iface)
+		if ch == nil {
+			out <- nil
+			return
+		}
+		out <- <-ch
+	}()
+	return out
+}
 func (l *decoLeaf) Commit(iface distsys.ArchetypeInterface) chan struct{} { return l.inner.Commit(iface) }
 func (l *decoLeaf) Close() error                                          { return l.inner.Close() }
 
@@ -942,6 +967,56 @@ func runReorder(c Case) []Event {
 	return cr.events
 }
 
+// ------------------------------------------------------------------------------------ twodest mode
+
+// One section writes to two stalled receivers (both connection handlers parked on their full
+// msgChannel), so both pre-commit handshakes time out, one of them (SlowPre) a little later than the
+// other; the section aborts and is retried at once. Time-outs may only abort the section.
+func runTwoDest(c Case) []Event {
+	cr := newCaseRun(c)
+	cr.log(cr.header("twodest"))
+	s := cr.newNode(c.Senders[0])
+	s.start()
+	for _, r := range c.Recvs {
+		n := cr.newNode(r)
+		n.start()
+		n.do(Cmd{N: r, Op: "L"}, watchdog)
+		n.do(Cmd{N: r, Op: "C"}, watchdog)
+	}
+	for _, r := range c.Recvs { // first batch fills the channel, the second parks the handler
+		for k := 0; k < 2; k++ {
+			s.do(Cmd{N: s.id, Op: "W", To: r}, watchdog)
+			res, _ := s.do(Cmd{N: s.id, Op: "C"}, watchdog)
+			cr.log(Event{"e": "res", "i": k, "n": s.id, "op": "C", "got": res, "exp": "c"})
+		}
+	}
+	// the section to both destinations and its immediate retry, queued ahead so that nothing waits for the driver
+	script := []Cmd{{N: s.id, Op: "W", To: c.Recvs[0]}, {N: s.id, Op: "W", To: c.Recvs[1]}, {N: s.id, Op: "C"},
+		{N: s.id, Op: "W", To: c.SlowPre}, {N: s.id, Op: "C"}}
+	for _, cmd := range script {
+		s.cmds <- cmd
+	}
+	for i, cmd := range script {
+		select {
+		case res, ok := <-s.res:
+			if !ok {
+				res = "dead"
+			}
+			cr.log(Event{"e": "res", "i": 10 + i, "n": s.id, "op": cmd.Op, "got": res, "exp": ""})
+		case <-time.After(watchdog):
+			cr.log(Event{"e": "hang", "p": s.id, "what": "twodest script"})
+			cr.stopAll()
+			return cr.events
+		}
+	}
+	time.Sleep(time.Duration(2*c.WT+c.SlowMs) * time.Millisecond) // any straggling handshake goroutine ends (or crashes) here
+	for _, r := range c.Recvs {
+		cr.drain(cr.nodes[r], 40)
+	}
+	cr.stopAll()
+	return cr.events
+}
+
 // ------------------------------------------------------------------------------------ dqueue mode
 
 // The shipped dqueue archetypes (generated code) over real TCP mailboxes: the producer reads its
@@ -1046,6 +1121,8 @@ func runCase(mode string, c Case) (evs []Event) {
 				evs = runReorder(c)
 			case "dqueue":
 				evs = runDqueue(c)
+			case "twodest":
+				evs = runTwoDest(c)
 			default:
 				panic("unknown mode " + mode)
 			}
@@ -1057,7 +1134,7 @@ func runCase(mode string, c Case) (evs []Event) {
 }
 
 func main() {
-	mode := flag.String("mode", "sched", "sched | stress | reorder | dqueue")
+	mode := flag.String("mode", "sched", "sched | stress | reorder | dqueue | twodest")
 	casesF := flag.String("cases", "", "ndjson file of cases")
 	outF := flag.String("out", "", "ndjson output (events)")
 	par := flag.Int("par", 8, "cases run concurrently")
